@@ -9,7 +9,9 @@ from boot import pm, pt
 Fragment, Slice, Node, Mark = pm.Fragment, pm.Slice, pm.Node, pm.Mark
 
 ALPHABET = ["a", "b", "c", "d", "e", "f", "g", "x", "y", "z", "a", "b", "c", "o", "p", "r", "s",
-            " ", " ", " ", "é", "\U0001F600", "\U0001D4B3", "\n", "-", "q", "1", "2"]
+            " ", " ", " ", "é", "\U0001F600", "\U0001D4B3", "\n", "-", "q", "1", "2",
+            # astral neighbours: same high surrogate as U+1F600 / same low surrogate as U+1F600
+            "\U0001F601", "\U0001F200"]
 
 ATTR_MENU = {
     "level": [1, 2, 3, 4, 5, 6],
@@ -407,6 +409,18 @@ def gen_op_(rng, kind, doc, sel, pool):
             doc.nodes_between(a, b, f)
             if present:
                 m = rng.choice(present)
+        if m is None and kind == "add_mark" and rng.random() < 0.4:
+            # a mark of a type already present in the range, with other attributes: exercises the
+            # exclusion / replacement paths of add_mark
+            present = []
+
+            def f2(node, pos, parent, i):
+                present.extend(x for x in node.marks if x.type.attrs)
+
+            doc.nodes_between(a, b, f2)
+            if present:
+                t = rng.choice(present).type
+                m = t.create(rand_attrs(rng, t, p_default=0.0))
         if m is None:
             m = rand_mark(rng, schema)
         if m is None:
@@ -474,7 +488,63 @@ def gen_raw_step(rng, doc, sel, pool):
             return None
         pos = rng.choice(ps)
         node = doc.node_at(pos)
-        mode = rng.choice(["retype", "unwrap", "wrap"])
+        mode = rng.choice(["retype", "unwrap", "wrap", "fuzzy", "consistent", "consistent"])
+        if mode == "consistent":
+            # depth-consistent fuzz: an (open) slice from a live document, from/to at depths that
+            # fit its open sides, a flat gap inside the range, any insertion point in the slice
+            src = rng.choice(pool) if pool and rng.random() < 0.5 else doc
+            cands = []
+            for _ in range(5):
+                c = rand_slice_from(rng, src)
+                if c.size:
+                    cands.append(c)
+            if not cands:
+                return None
+            # bias towards deep open sides and several top-level children
+            sl = rng.choices(cands, [1 + 2 * (c.open_start + c.open_end) + c.content.child_count for c in cands])[0]
+            depth_of = {}
+            for q in range(size + 1):
+                try:
+                    depth_of[q] = doc.resolve(q).depth
+                except ValueError:
+                    pass
+            froms = [q for q, d in depth_of.items() if d >= sl.open_start]
+            if not froms:
+                return None
+            frm = rng.choice(froms)
+            want = depth_of[frm] - sl.open_start + sl.open_end
+            tos = [q for q, d in depth_of.items() if q >= frm and d == want]
+            if not tos:
+                return None
+            tos.sort()
+            to = rng.choice(tos[:6]) if rng.random() < 0.7 else rng.choice(tos)
+            inner = [q for q in node_positions(doc) if frm <= q and q + doc.node_at(q).node_size <= to]
+            if inner and rng.random() < 0.8:
+                g1 = rng.choice(inner)
+                g2 = g1 + doc.node_at(g1).node_size
+            else:
+                g1 = g2 = rng.randint(frm, to)
+            if rng.random() < 0.3:
+                # possibly non-flat gap: the library has to refuse it
+                g2 = rng.randint(g1, to)
+            return {"stepType": "replaceAround", "from": frm, "to": to, "gapFrom": g1, "gapTo": g2,
+                    "insert": rng.randint(0, sl.size), "slice": sl.to_json(),
+                    "structure": rng.random() < 0.2}
+        if mode == "fuzzy":
+            # arbitrary ordered positions, arbitrary (open) slice from a live document, arbitrary
+            # insertion point inside it: what an untrusted peer may send
+            four = sorted(rng.randint(0, size) for _ in range(4))
+            if rng.random() < 0.5:
+                four[1] = four[0] + min(four[1] - four[0], rng.randint(0, 2))
+                four[2] = max(four[1], four[3] - min(four[3] - four[2], rng.randint(0, 2)))
+            src = rng.choice(pool) if pool and rng.random() < 0.5 else doc
+            sl = rand_slice_from(rng, src)
+            js = {"stepType": "replaceAround", "from": four[0], "to": four[3], "gapFrom": four[1],
+                  "gapTo": four[2], "insert": rng.randint(0, max(0, sl.size)),
+                  "structure": rng.random() < 0.3}
+            if sl.size:
+                js["slice"] = sl.to_json()
+            return js
         if mode == "retype":
             cands = [t for t in schema.nodes.values() if not t.is_leaf and t.is_inline == node.type.is_inline]
             t = rng.choice(cands)
